@@ -43,7 +43,8 @@ def BURST(test):
 PROPS = {
     "C01": {"level": "exploration", "assumptions": SIM_ASSUME, "parts": [sim("TestC01"), BURST("TestC01Burst")]},
     "C02": {"level": "exploration", "assumptions": SIM_ASSUME, "parts": [sim("TestC02", q=(300, 4), t=(4000, 16)), sim("TestC02Graphs", q=(600, 4), t=(20000, 16))]},
-    "C03": {"level": "exploration", "assumptions": SIM_ASSUME, "parts": [sim("TestC03"), STORM("TestC03Storm")]},
+    "C03": {"level": "exploration", "assumptions": SIM_ASSUME, "parts": [sim("TestC03"), STORM("TestC03Storm"),
+                                                                               {"pkg": "sim", "test": "TestC03Real", "quick": {"checks": 2, "shards": 1, "shrink": "5s", "timeout": "10m"}, "thorough": {"checks": 60, "shards": 4, "shrink": "30s", "timeout": "2h"}}]},
     "C04": {"level": "exploration", "assumptions": SIM_ASSUME, "parts": [sim("TestC04"), rp("procs", "TestC04Real", (12, 2), (300, 8), helpers=["cmd/vhelper"])]},
     "C05": {"level": "exploration", "assumptions": SIM_ASSUME, "parts": [sim("TestC05"), BURST("TestC05Burst")]},
     "C06": {"level": "exploration", "assumptions": SIM_ASSUME, "parts": [sim("TestC06"), STORM("TestC06Storm")]},
